@@ -124,6 +124,7 @@ class E3Check(Check):
         "transform_right", "transform_prop", "align_se3", "align_sim3",
         "project_with_cached_positions", "compute_ape", "compute_rpe",
         "compute_main_ape", "compute_merge_results",
+        "compute_umeyama_contiguous", "compute_lie", "compute_plot",
     )
 
     def setup_worker(self):
@@ -136,6 +137,8 @@ class E3Check(Check):
         nobj = rng.choice([1, 2, 2, 3])
         big = tier == "thorough" and rng.random() < 0.3
         objs = [gen_object_spec(rng, small=not big) for _ in range(nobj)]
+        if tier == "thorough" and rng.random() < 0.05:
+            objs[0]["n"] = rng.randint(65, 200)  # the quantifier's upper end
         # make equal-length companions likely (align / APE need them)
         for k in range(1, nobj):
             if rng.random() < 0.6:
